@@ -27,8 +27,13 @@ def rand_doc(rng, nsrc, nnames, max_lines=6, max_segs=8, hist=None, big=False):
             if rng.chance(0.07):
                 segs.append(None)  # empty segment
                 continue
-            lim = (1 << 31) if big and rng.chance(0.2) else 40
-            c = rng.range(-min(col, 20), lim)
+            lim = 40
+            if big and rng.chance(0.25):
+                # jumps around the i32 / u32 boundaries, up and back down
+                tgt = rng.choice([(1 << 31) - 1, 1 << 31, (1 << 31) + 1, 3000000000, (1 << 32) - 1, 0, 1])
+                c = tgt - col
+            else:
+                c = rng.range(-min(col, 20), lim)
             col += c
             ar = 1
             if nsrc > 0:
@@ -39,6 +44,10 @@ def rand_doc(rng, nsrc, nnames, max_lines=6, max_segs=8, hist=None, big=False):
                 ns = rng.below(nsrc)
                 nsl = max(0, sl + rng.range(-min(sl, 30), lim))
                 nsc = max(0, sc + rng.range(-min(sc, 30), lim))
+                if big and rng.chance(0.2):
+                    nsl = rng.choice([(1 << 31) - 1, 1 << 31, 2500000000, (1 << 32) - 1, 0, 5])
+                if big and rng.chance(0.2):
+                    nsc = rng.choice([(1 << 31) - 1, 1 << 31, 4000000000, (1 << 32) - 1, 0, 6])
                 f = [c, ns - src, nsl - sl, nsc - sc]
                 src, sl, sc = ns, nsl, nsc
                 if ar == 5:
@@ -76,4 +85,16 @@ def rand_tokens(rng, nsrc, nnames, n, lines=3, cols=12, p_dup=0.15, p_same=0.2, 
             if not wf and rng.chance(0.1):
                 nm = nnames + rng.below(3)
             ts.append((dl, dc, rng.below(50), rng.below(50), rng.below(nsrc), nm, r))
+    return ts
+
+
+def big_tokens(rng, nsrc, nnames, n):
+    """ordered tokens whose coordinates jump around 2^31 and 2^32-1 (deltas that need 33 bits)"""
+    vals = [0, 1, 7, (1 << 31) - 1, 1 << 31, (1 << 31) + 5, 2500000000, 3000000000, 4000000000, (1 << 32) - 1]
+    ts = []
+    for _ in range(n):
+        src = rng.below(nsrc) if nsrc and rng.chance(0.8) else NONE
+        nm = rng.below(nnames) if (nnames and src != NONE and rng.chance(0.4)) else NONE
+        ts.append((rng.choice([0, 0, 1, 3]), rng.choice(vals), rng.choice(vals) if src != NONE else 0, rng.choice(vals) if src != NONE else 0, src, nm, 1 if rng.chance(0.2) else 0))
+    ts.sort(key=lambda t: (t[0], t[1]))
     return ts
